@@ -513,8 +513,8 @@ def r3_compositions(repo: Repo, rep):
             rep.check(R, good, init.site(), init.fq, "self.models = nn.ModuleList(models) (same order as the space product)", dump(v), dump(v))
             # output space product in model order: output_space = output_space * model.output_space
             sup = [c for e in p.events if e.value is not None for c in ast.walk(e.value) if isinstance(c, ast.Call) and dump(c.func) == "super().__init__"]
-            if sup and len(sup[0].args) >= 2:
-                o = sup[0].args[1]
+            if sup and kwarg(sup[0], "output_space", 1) is not None:
+                o = kwarg(sup[0], "output_space", 1)
                 lv = [k for k, it in p.loopvars.items() if dump(it) == "models"]
                 good = bool(lv) and isinstance(o, ast.BinOp) and isinstance(o.op, ast.Mult) and dump(o.right) == f"{lv[0]}.output_space"
                 rep.check(R, good, init.site(), init.fq, "output_space accumulated as output_space * model.output_space in model order", dump(o), dump(o))
